@@ -303,11 +303,8 @@ def frame_analysis(A, an):
         g["crc_eq"] = bool(rd and calc is not None and len(rd) == 2 and st.prove_eq0(rd[0] + rd[1].scale(256) - calc))
         g["crc_bytes"] = bool(rd and pl and len(rd) == 2 and rd[0] == pl[2] and rd[1] == pl[3])
         g["crc_digest"] = st.ghost.get("fa-final-tag") == "crc-digest-fed" and st.ghost.get("fa-swapped") is True
-        al = False
-        for s in list(st.rng):
-            d = ip_.tab.defn(s)
-            if d and d[0] == "rem" and d[2] == 4 and isinstance(d[1], Lin) and st.bounds(s) == (0, 0) and st.prove_eq0(d[1] - raw):
-                al = True
+        from ..vra.cong import congruent0
+        al = congruent0(ip_, st, raw, 4)
         g["aligned"] = al
         g["pad_le_3"] = bool(pl and st.prove_ge0(Lin.const(3) - pl[1]))
         g["pad_le_zeros"] = bool(pl and zc0 is not None and st.prove_ge0(zc0 - pl[1]))
